@@ -24,7 +24,7 @@ LINE = {
 FILE_NAME = {'main': 'main.case', 'B': 'B.xly', 'C': 'sub/C.xly'}
 ALL = ['Hs', 'Ha', 'Hact', 'Hc', 'Hunk', 'Hmal', 'C', 'B', 'I', 'MLs', 'MLe', 'D', 'X', 'ESC', 'INC']
 INCL = ['Hs', 'Ha', 'Hact', 'I', 'MLs', 'MLe', 'X', 'IB', 'IC', 'IM', 'IMISS']
-INVARIANTS = ['LocationsDisjoint', 'LocationsInside', 'MergeInFileOrder', 'Terminates']
+INVARIANTS = ['LocationsDisjoint', 'LocationsInside', 'MergeInFileOrder', 'Terminates', 'OrderIrrelevant']
 PHASES = ['conf', 'setup', 'act', 'ba', 'assert', 'cleanup']
 
 
